@@ -18,7 +18,7 @@ from .interp import (Ctx, Frame, PyRaise, _Return, _Break, _Continue, PathEnd, I
 from .modules import Repo, node_hash
 from .values import (S, VOpt, VQty, VTime, VDelta, VEnum, SEnum, VRec, VRef, HObj, HList, HDict,
                      HSet, SymSeq, SymSet, SymMap, FuncRef, ClassRef, ModRef, ExtRef,
-                     BoundBuiltin, Opaque, Unsupported, fresh_name, reset_fresh, GhostSeq)
+                     BoundBuiltin, Opaque, Unsupported, fresh_name, reset_fresh, GhostSeq, KeySetVal, HKeySet)
 
 
 class FunctionReport:
@@ -36,6 +36,8 @@ class FunctionReport:
         self.loops_used = set()
         self.excluded = []        # obligations excluded by known-finding regimes
         self.cover_ok = None
+        self.live_exits = 0       # exits whose path condition (with quantified facts) has a model
+        self.unknown_exits = 0
 
 
 class Engine:
@@ -115,6 +117,19 @@ class Engine:
     def enum_value(self, it, v):
         ci = self.class_info(v.cls)
         return it.eval(ci.enum_values[v.name], Frame(ci.module))
+
+    def fieldwise_equal(self, it, a, b):
+        """Same record, field by field (ignores a custom __eq__)."""
+        acc = True
+        for f in a.fields:
+            x, y = a.fields[f], b.fields[f]
+            if isinstance(x, Opaque) or isinstance(y, Opaque):
+                continue
+            if isinstance(x, VRec) and isinstance(y, VRec):
+                acc = it.and_(acc, it.truth(self.fieldwise_equal(it, x, y)))
+            else:
+                acc = it.and_(acc, it.truth(it.equal(x, y)))
+        return it.wrap_bool(acc)
 
     def uf(self, name, *sorts):
         if name not in self.ufs:
@@ -271,6 +286,19 @@ class Engine:
             sq = SymSeq(n, ArrShape(self, shape.elem, ctx), arrays)
             sq.pyshape = shape
             return sq
+        if k == "keyset":
+            from . import keysets
+            ks = keysets.make_keyset(self, ctx, shape, name)
+            ref = ctx.alloc(HKeySet(ks))
+            keysets.enumeration(self, ctx.it, ks)   # finite; also what model extraction lists
+            return ref
+        if k == "dictopt":
+            d = HDict()
+            for key, vshape in shape.entries.items():
+                kn = repr(key).replace(" ", "")
+                if key in shape.always or ctx.branch(z3.Bool(f"{name}.has[{kn}]"), f"{name} has key {kn}"):
+                    d.items[key] = self.make_sym(ctx, vshape, f"{name}[{kn}]")
+            return ctx.alloc(d)
         if k == "setseq":
             n = z3.Int(name + ".len")
             ctx.assume(n >= 0)
@@ -309,20 +337,28 @@ class Engine:
         raise Unsupported(f"key shape {shape.kind}")
 
     def make_arrays(self, ctx, shape, name, idx_sort):
-        """Struct of arrays mirroring `shape`."""
+        """Struct of arrays mirroring `shape` (idx_sort: one sort, or a list for nested arrays)."""
         k = shape.kind
+
+        def arr(rng):
+            if isinstance(idx_sort, (list, tuple)):
+                srt = rng
+                for d in reversed(idx_sort):
+                    srt = z3.ArraySort(d, srt)
+                return z3.Const(name, srt)
+            return z3.Array(name, idx_sort, rng)
         if k in ("real",):
-            return z3.Array(name, idx_sort, z3.RealSort())
+            return arr(z3.RealSort())
         if k == "fp":
-            return z3.Array(name, idx_sort, FP)
+            return arr(FP)
         if k in ("int", "strid", "time", "delta", "enum"):
-            return z3.Array(name, idx_sort, z3.IntSort())
+            return arr(z3.IntSort())
         if k == "bool":
-            return z3.Array(name, idx_sort, z3.BoolSort())
+            return arr(z3.BoolSort())
         if k == "qty":
-            return z3.Array(name, idx_sort, FP if ctx.mode == "ieee" else z3.RealSort())
+            return arr(FP if ctx.mode == "ieee" else z3.RealSort())
         if k == "opt":
-            return (z3.Array(name + "?none", idx_sort, z3.BoolSort()), self.make_arrays(ctx, shape.inner, name, idx_sort))
+            return (self.make_arrays(ctx, specmod.Bool, name + "?none", idx_sort), self.make_arrays(ctx, shape.inner, name, idx_sort))
         if k in ("rec", "obj"):
             return {f: self.make_arrays(ctx, s, f"{name}.{f}", idx_sort) for f, s in shape.fields.items()}
         if k == "tup":
@@ -460,6 +496,11 @@ class Engine:
         if isinstance(v, VRef):
             heap = ctx.old[1] if ctx.old is not None else ctx.heap
             h = heap.get(v.addr) or ctx.heap[v.addr]
+            if isinstance(h, HKeySet):
+                sq = h.val.enum
+                if sq is None:
+                    return {"list": [], "note": "set never enumerated"}
+                return self.val_json(ctx, None, sq, model)
             if isinstance(h, HList):
                 return {"list": [self.val_json(ctx, None, x, model) for x in h.items]}
             if isinstance(h, HSet):
@@ -650,6 +691,9 @@ class Engine:
         sfr = Frame(cm, {}, closure=None)
         sfr.is_spec_root = True
         it.bind_params(f.node.args, args, kwargs, sfr, f)
+        for pn, shp in c.shapes.items():
+            if shp.kind == "keyset" and pn in sfr.locals:
+                sfr.locals[pn] = self.coerce_keyset(it, shp, sfr.locals[pn])
         short = target.split(":")[-1]
         for nm, expr in c.requires.items():
             g = self.eval_clause(it, expr, sfr)
@@ -708,6 +752,27 @@ class Engine:
 
     def clause_names(self, expr):
         return {n.id for n in ast.walk(self.parse_clause(expr)) if isinstance(n, ast.Name)}
+
+    def coerce_keyset_any(self, it, v, keyfields):
+        """Concrete set of records -> key map, shape inferred from a declared KeySet with these key fields."""
+        for c in list(specmod.CONTRACTS.values()):
+            for shp in list(c.shapes.values()) + ([c.self_shape] if c.self_shape is not None else []):
+                found = find_keyset_shape(shp, tuple(keyfields))
+                if found is not None:
+                    return self.coerce_keyset(it, found, v)
+        raise Unsupported("no KeySet shape declared for these key fields")
+
+    def coerce_keyset(self, it, shape, v):
+        """A concrete python set of records -> the key-map representation."""
+        from . import keysets
+        if isinstance(v, VRef):
+            h = it.ctx.deref(v)
+            if isinstance(h, HSet):
+                ks = keysets.empty_keyset(self, it.ctx, shape)
+                for x in h.items:
+                    ks = keysets.add(self, it, ks, x)
+                return it.ctx.alloc(HKeySet(ks)) if not it.ctx.nofork else v
+        return v
 
     def havoc_path(self, it, sfr, path, c):
         """`self.field` or `param.field`: replace by a fresh value of the declared shape."""
@@ -769,6 +834,9 @@ class Engine:
                 break
             worklist.extend(ctx.new_forks)
             self.collect(rep, ctx, regimes)
+            if os.environ.get("PYVC_DEBUG"):
+                print(f"  [path {rep.paths}] decisions={len(ctx.decisions)} obligations={len(ctx.obligations)} "
+                      f"solver={ctx.solver_time:.2f}s labels={[l[:40] + ('' if t else ' (no)') for l, t in ctx.path_labels][-4:]}", flush=True)
         declared = set(c.loops)
         if rep.error is None and declared - rep.loops_used:
             rep.error = f"contract out of date: loop(s) not found in source: {sorted(declared - rep.loops_used)}"
@@ -844,6 +912,11 @@ class Engine:
         except PyRaise as e:
             outcome = ("raise", e)
         rep.exits += 1
+        nv = ctx.nonvacuous() if rep.live_exits == 0 else "skipped"
+        if nv is True:
+            rep.live_exits += 1
+        elif nv is None:
+            rep.unknown_exits += 1
         ctx.old = (old_locals, old_heap)
         post = Frame(cm, dict(old_locals), closure=None)
         post.is_spec_root = True
@@ -851,6 +924,7 @@ class Engine:
         # rebinding a parameter name inside the body is not visible to the caller)
         post.locals.update(ctx.ghost)
         short = c.target.split(":")[-1]
+        self.last_frame_locals = fr.locals
         if outcome[0] == "return":
             post.locals["result"] = outcome[1]
             for nm, expr in c.ensures.items():
@@ -926,7 +1000,31 @@ class Engine:
             elif isinstance(h0, (HDict, HSet)):
                 if list(h0.items) != list(h1.items):
                     same = False
+            elif isinstance(h0, HKeySet):
+                if h0.val is not h1.val:
+                    same = False
         ctx.check(f"{short}::frame.pure", same, kind="frame")
+
+
+def find_keyset_shape(shp, keyfields, depth=0):
+    if shp is None or depth > 6:
+        return None
+    if shp.kind == "keyset" and tuple(shp.key) == tuple(keyfields):
+        return shp
+    for attr in ("fields", "entries"):
+        d = getattr(shp, attr, None)
+        if isinstance(d, dict):
+            for s2 in d.values():
+                r = find_keyset_shape(s2, keyfields, depth + 1)
+                if r is not None:
+                    return r
+    for attr in ("inner", "elem"):
+        s2 = getattr(shp, attr, None)
+        if s2 is not None and hasattr(s2, "kind"):
+            r = find_keyset_shape(s2, keyfields, depth + 1)
+            if r is not None:
+                return r
+    return None
 
 
 def leaves_of(arrays):
@@ -945,6 +1043,8 @@ class ArrShape:
     def select(self, arrays, i, shape=None):
         shape = shape or self.shape
         k = shape.kind
+        if isinstance(i, (tuple, list)):
+            return self._select_nested(arrays, tuple(i), shape)
         if k == "real":
             return S(z3.Select(arrays, i), "real")
         if k == "fp":
@@ -973,6 +1073,43 @@ class ArrShape:
         if k == "opaque":
             return Opaque(shape.tag)
         raise Unsupported(f"select of {k}")
+
+
+def _nsel(arr, keys):
+    for kk in keys:
+        arr = z3.Select(arr, kk)
+    return arr
+
+
+def _select_nested(self, arrays, keys, shape):
+    k = shape.kind
+    if k in ("real", "fp", "bool"):
+        return S(_nsel(arrays, keys), k)
+    if k in ("int", "strid"):
+        return S(_nsel(arrays, keys), "int")
+    if k == "time":
+        return VTime(S(_nsel(arrays, keys), "int"))
+    if k == "delta":
+        return VDelta(S(_nsel(arrays, keys), "int"))
+    if k == "qty":
+        return VQty(shape.unit, S(_nsel(arrays, keys), "fp" if self.mode == "ieee" else "real"))
+    if k == "opt":
+        return VOpt(_nsel(arrays[0], keys), _select_nested(self, arrays[1], keys, shape.inner))
+    if k == "rec":
+        return VRec(shape.cls, {f: _select_nested(self, arrays[f], keys, s) for f, s in shape.fields.items()})
+    if k == "tup":
+        return tuple(_select_nested(self, a, keys, s) for a, s in zip(arrays, shape.items))
+    if k == "enum":
+        members = shape.members or self.engine.enum_members(shape.cls)
+        return SEnum(shape.cls, list(members), _nsel(arrays, keys))
+    if k == "const":
+        return shape.value
+    if k == "opaque":
+        return Opaque(shape.tag)
+    raise Unsupported(f"select of {k}")
+
+
+ArrShape._select_nested = _select_nested
 
 
 def fp_to_str(r):
